@@ -1,11 +1,12 @@
 /-
 C12 — property theorems over the model (NV/C12/Model.lean).  Helper lemmas: NV/C12/Lemmas.lean.
 Each theorem says in its doc comment which clause of the specification oracle (NV/C12/Spec.lean) it carries.
-Statements that could not be closed in this round are kept as `def ... : Prop` at the end (no `sorry`).
+
 -/
 import NV.C12.Model
 import NV.C12.Spec
 import NV.C12.Lemmas
+import NV.C12.Lemmas3
 
 namespace NV.C12
 
@@ -200,28 +201,105 @@ theorem arrivals_append (w : World) (u : Nat) (h : (w.net.get u).rx.isEmpty = fa
 example : firstCmd false ("ab".toList ++ [NUL] ++ "cd".toList ++ [NUL]) =
     ("ab".toList ++ [NUL] ++ "cd".toList ++ [NUL], some "ab".toList) := by decide
 
-/-! ### statements not closed in this round (checked on every run by correspondence + oracle only) -/
+/-! ### nobody eligible is passed over: scan coverage, loop bound, no starvation -/
 
-/-- user `u` sits in the table, holds a turn and its buffer holds a complete command -/
-def eligible (w : World) (u : Nat) : Prop :=
-  w.interactive u = true ∧ turnOf w u = true ∧ (w.users.get u).cmdInBuf = true ∧
-    hasCmd (w.users.get u).single (w.users.get u).buf = true
+/-- the state in which the command phase of the cycle starting in `w` begins: turns granted, I/O processed -/
+def cmdPhaseStart (w : World) : World :=
+  (processIO { w with cycle := w.cycle + 1, users := grantAll w.users w.slots }).1
 
-/-- **scan_finds_every_eligible**: one call of get_user_command visits every slot exactly once (cursor walk
-    `c, c-1, .., 0, max-1, .., c+1`), so it returns nothing only when nobody is eligible. -/
-def scan_finds_every_eligible_Stmt : Prop :=
-  ∀ w : World, Safe w → (getUserCommand w).2 = none → ∀ u, ¬ eligible (getUserCommand w).1 u
+/-- **scan_finds_every_eligible**: one call of get_user_command visits every slot of the table exactly once (cursor
+    walk `c, c-1, .., 0, max-1, .., c+1`, for every cursor position and every layout), so it reports "no command" only
+    when nobody in the table holds both a turn and a complete flagged command (`elig`). -/
+theorem scan_finds_every_eligible (w : World) (hs : Safe w) (h : (getUserCommand w).2 = none) :
+    ∀ u, elig (getUserCommand w).1 u = false :=
+  (getUserCommand_none w hs h).1
 
-/-- **loop_bound_sufficient**: at most `connected_users` turns exist when the command loop starts (users accepted in
-    this cycle hold none) and every successful call consumes one, so the `connected_users + 1` calls allowed by
-    `i < connected_users` are never exhausted while an eligible user remains. -/
-def loop_bound_sufficient_Stmt : Prop :=
-  ∀ (sc : Scripts) (w : World), Safe w → ∀ u, ¬ eligible (cycleStep sc w).1 u
+/-- the turn-grant loop gives a turn to every user in the table -/
+theorem grant_gives_turn (users : AMap U) (slots : List (Option Nat)) (u : Nat) (h : some u ∈ slots) :
+    ((grantAll users slots).get u).turn = true := by
+  have keep : ∀ (sl : List (Option Nat)) (us : AMap U), (us.get u).turn = true → ((grantAll us sl).get u).turn = true := by
+    intro sl
+    induction sl with
+    | nil => intro us h; exact h
+    | cons a r ih =>
+      intro us h
+      cases a with
+      | none => exact ih us h
+      | some x =>
+        apply ih
+        simp only [get_upd]
+        split
+        · rfl
+        · exact h
+  induction slots generalizing users with
+  | nil => cases h
+  | cons a r ih =>
+    cases a with
+    | none =>
+      rcases List.mem_cons.mp h with h | h
+      · cases h
+      · exact ih users h
+    | some x =>
+      rcases List.mem_cons.mp h with h | h
+      · cases h
+        simp only [grantAll]
+        apply keep
+        simp only [get_upd, if_true]
+      · exact ih _ h
 
-/-- **no_starvation** (clause `starved`): a user eligible when the command phase starts is served in this cycle
-    unless it leaves the table (kick / drop) during it. -/
-def no_starvation_Stmt : Prop :=
-  ∀ (sc : Scripts) (k : Nat) (w : World), Safe w → (w.slots.filter Option.isSome).length < k → ∀ u, eligible w u →
-    cmdCount u (cmdLoop sc k w).2 = 1 ∨ (cmdLoop sc k w).1.interactive u = false
+/-- `connected_users` (counted by the grant loop) bounds the turns inside the table when the command phase starts:
+    users accepted during this cycle's process_io hold no turn, users that vanished only lower the count -/
+theorem turns_at_most_connected_users (w : World) : turnCount (cmdPhaseStart w) ≤ connectedUsers w := by
+  unfold cmdPhaseStart
+  refine Nat.le_trans (processIO_turnCount _) ?_
+  exact turnCount_le_connected { w with cycle := w.cycle + 1, users := grantAll w.users w.slots }
+
+theorem cycleStep_world (sc : Scripts) (w : World) :
+    (cycleStep sc w).1 = (cmdLoop sc (connectedUsers w + 1) (cmdPhaseStart w)).1 := rfl
+
+/-- **loop_bound_sufficient**: the bound `i < connected_users` (which allows `connected_users + 1` calls of
+    process_user_command) never cuts off an eligible user: when a backend cycle ends, nobody in the table holds a turn
+    together with a complete flagged command - for every layout (gaps), cursor, queue depth, users connecting in this
+    cycle's process_io, users kicked / dropped / switched to single-char mode from inside commands, command() calls. -/
+theorem loop_bound_sufficient (sc : Scripts) (w : World) (hs : Safe w) : ∀ u, elig (cycleStep sc w).1 u = false := by
+  rw [cycleStep_world]
+  have h1 : Safe (cmdPhaseStart w) := processIO_safe _ ⟨hs.1, hs.2⟩
+  have h2 := turns_at_most_connected_users w
+  exact cmdLoop_complete sc _ _ h1 (by omega)
+
+theorem cycleStep_cmdCount (sc : Scripts) (w : World) (u : Nat) :
+    cmdCount u (cycleStep sc w).2 = cmdCount u (cmdLoop sc (connectedUsers w + 1) (cmdPhaseStart w)).2 := by
+  unfold cycleStep cmdPhaseStart
+  dsimp only
+  have hio : cmdCount u (processIO { w with cycle := w.cycle + 1, users := grantAll w.users w.slots }).2 = 0 := by
+    unfold processIO; dsimp only; split <;> simp [cmdCount, Ev.isCmdOf]
+  simp only [cmdCount_append, hio]
+  have hhead : cmdCount u [Ev.begin (w.cycle + 1), Ev.poll (w.cycle + 1) (!hasPending w)] = 0 := by
+    simp [cmdCount, Ev.isCmdOf]
+  rw [hhead]
+  have htail : ∀ (c : Bool) (a b : List Ev), cmdCount u a = 0 → cmdCount u b = 0 → cmdCount u (if c = true then a else b) = 0 := by
+    intro c a b ha hb; split <;> assumption
+  rw [htail _ _ _ (by simp [cmdCount, Ev.isCmdOf]) (by simp [cmdCount, Ev.isCmdOf])]
+  omega
+
+/-- **no_starvation** (clause `starved`): a user that sits in the table holding a turn and a complete flagged command
+    when the command phase of a cycle starts is served exactly once in that cycle, or has left the table (kick / drop
+    from inside a command) when the cycle ends - whatever the layout, the cursor position, the queue depths of the
+    others and their scripts are. -/
+theorem no_starvation (sc : Scripts) (w : World) (hs : Safe w) (u : Nat) (he : elig (cmdPhaseStart w) u = true) :
+    cmdCount u (cycleStep sc w).2 = 1 ∨ (cycleStep sc w).1.interactive u = false := by
+  rw [cycleStep_cmdCount, cycleStep_world]
+  have h1 : Safe (cmdPhaseStart w) := processIO_safe _ ⟨hs.1, hs.2⟩
+  have h2 := turns_at_most_connected_users w
+  exact cmdLoop_serves sc _ _ h1 (by omega) u he
+
+-- non-vacuity: three users in a sparse table (slot 2 freed), deep queue for user 1, one line for user 3: both are
+-- eligible when the command phase starts and both are served
+example :
+    let w := (run (fun _ _ => []) {} [.conn, .cycle, .conn, .cycle, .conn, .cycle, .close 2, .cycle,
+                                      .send 1 "a~b~c~d~".toList, .send 3 "x~".toList]).1
+    Safe w ∧ elig (cmdPhaseStart w) 1 = true ∧ elig (cmdPhaseStart w) 3 = true ∧
+      cmdCount 1 (cycleStep (fun _ _ => []) w).2 = 1 ∧ cmdCount 3 (cycleStep (fun _ _ => []) w).2 = 1 := by
+  refine ⟨⟨by decide, by decide⟩, by decide, by decide, by decide, by decide⟩
 
 end NV.C12
